@@ -118,7 +118,10 @@ def exact_roots(spec, prob, ta, tb):
             for k in range(-3, 4):
                 cands += [tau + 2 * np.pi * k, -tau + 2 * np.pi * k]
     m = 1e-9
-    out = sorted(set(round(c, 14) for c in cands if lo - m <= c <= hi + m))
+    out = []
+    for c in sorted(c for c in cands if lo - m <= c <= hi + m):
+        if not out or abs(c - out[-1]) > 1e-12:       # de-duplicate coinciding candidates without rounding them
+            out.append(c)
     return out
 
 
